@@ -80,6 +80,11 @@ structure CustomImpl (V : Type) where
   handle : Kw V → Xml → Option (Kw V)
   attrsOut : Obj V → List (String × String)
   childrenOut : Obj V → List Xml
+  /-- the keyword arguments the handler may write (specification data, not used by `parse` / `to_xml`) -/
+  own : List String := []
+  /-- what the handler stores under each of its arguments when it reads its own output
+  (specification data; `none` = nothing stored, the constructor default applies) -/
+  eff : Obj V → String → Option (Val V) := fun _ _ => none
 
 inductive Property (V : Type) where
   | attr (adm arg : String) (c : Codec V) (required : Bool) (dflt : V)
@@ -271,6 +276,18 @@ def Property.declArg? : Property V → Option String
   | _ => none
 
 def declArgs (ps : List (Property V)) : List String := ps.filterMap (·.declArg?)
+
+/-- the arguments a property may write: its declarative argument, or what a hand-written handler declares -/
+def Property.ownArgs : Property V → List String
+  | .customElement _ _ _ impl => impl.own
+  | .genericElement _ _ impl => impl.own
+  | .attr _ arg _ _ _ => [arg]
+  | .attrElement _ arg _ _ _ parseOnly => if parseOnly then [] else [arg]
+  | .listElement _ arg _ _ parseOnly => if parseOnly then [] else [arg]
+  | .handleText arg _ => [arg]
+  | .typeAttribute _ _ arg _ _ _ => [arg]
+
+def allArgs (ps : List (Property V)) : List String := ps.flatMap (·.ownArgs)
 
 omit [DecidableEq V] in
 def Property.isCustom : Property V → Bool
